@@ -4,6 +4,7 @@
 # check against that tree (VERIF_REPO), removes the worktree. /repo itself is never touched,
 # evidence and replays of such runs go to scratch directories.
 set -u
+export VERIF_STALL_S=${VERIF_STALL_S:-90}   # seeded changes may make a worker spin: do not wait ten minutes for each
 id=$1; what=$2; shift 2
 wt=/tmp/sens-wt-$$
 git -C /repo worktree add -q --detach $wt HEAD || exit 2
